@@ -75,7 +75,7 @@ def run(tier, seed, only=None):
         # attribute to the abstract cases whose function is missing / extra
         txt = str(why)
         import re
-        names = sorted(set(re.findall(r"disc(\d+)", txt)))
+        names = sorted(set(re.findall(r"disc(\d+)", txt)) | set(re.findall(r"sib(\d+)_\d+", txt)))
         if ev["status"] != "ok" and not names:
             verdicts.reject("layout=%s run=%s" % (ev["layout"], ev["status"]), "no wrappers", "generation failed: %s" % ev["status"], {"case": ev["case"]})
             continue
@@ -86,7 +86,7 @@ def run(tier, seed, only=None):
             c = pk.get(int(n))
             if not c:
                 continue
-            expected = c["pc"] in ("root", "depth1", "depth3", "sibling_targets", "file_named_target", "git_lookalike", "dotdir") \
+            expected = c["pc"] in ("root", "depth1", "depth3", "sibling_targets", "file_named_target", "git_lookalike", "dotdir", "beside_git_file", "beside_target_file", "beside_target_link") \
                 and c["parsable"] and c["pos"] == "top" and c["attr"] in PC.ATTR_TEXT and c["attr"] not in ("none", "other_command", "tauri_other", "command_in_doc_only")
             key = "layout=%s pc=%s parsable=%s attr=%s pos=%s" % (ev["layout"], c["pc"], c["parsable"], c["attr"], c["pos"])
             if key in seen:
